@@ -9,6 +9,7 @@ import (
 	"fmt"
 	"io"
 	"math"
+	"runtime"
 	"strings"
 	"time"
 
@@ -70,7 +71,40 @@ func New() *Doc {
 
 func (d *Doc) violate(format string, args ...any) {
 	if len(d.Violations) < 50 {
-		d.Violations = append(d.Violations, fmt.Sprintf("event %d: ", len(d.Events)-1)+fmt.Sprintf(format, args...))
+		d.Violations = append(d.Violations, fmt.Sprintf("event %d: ", len(d.Events)-1)+fmt.Sprintf(format, args...)+" [called from "+CallSite()+"]")
+	}
+}
+
+const modPrefix = "github.com/benoitkugler/webrender/"
+
+// CallSite returns the innermost webrender function on the current call stack: the call site of the
+// backend call being recorded.
+func CallSite() string {
+	var pcs [40]uintptr
+	n := runtime.Callers(2, pcs[:])
+	frames := runtime.CallersFrames(pcs[:n])
+	for {
+		f, more := frames.Next()
+		if strings.HasPrefix(f.Function, modPrefix) {
+			fn := strings.TrimPrefix(f.Function, modPrefix)
+			// strip closure suffixes
+			for {
+				k := strings.LastIndex(fn, ".")
+				if k < 0 {
+					break
+				}
+				tail := fn[k+1:]
+				if strings.HasPrefix(tail, "func") || (len(tail) > 0 && tail[0] >= '0' && tail[0] <= '9') {
+					fn = fn[:k]
+					continue
+				}
+				break
+			}
+			return fn
+		}
+		if !more {
+			return "?"
+		}
 	}
 }
 
